@@ -381,6 +381,36 @@ Section C06_maintenance.
   Proof. exact (pass_from_good_kept id_secure cfg nbuckets 0 now answers refresh nodes n). Qed.
 End C06_maintenance.
 
+(* the pass model's write-back of an unanswered ping IS the server LTS's EFailedPing event (the transition system the
+   theorems of the first part of this file are about): on an entry of the table it applies apply_update UFailedPing to
+   the first entry of that bucket with that id and address, emits nothing, changes nothing else *)
+From Dht Require Import MaintRefine.
+Section C06_maintenance_refines.
+  Variable Store : Type.
+  Variable w_put : Store -> witem -> Z -> Store * put_result.
+  Variable w_get : Store -> bytes -> Z -> Store * get_result.
+  Variable sha1 : bytes -> bytes.
+  Variable id_secure : N -> bytes -> bool.
+  Variable cfg : config.
+
+  Theorem C06_maint_failed_ping_is_server_event (s : sstate Store) (n : node) :
+    In n (s_nodes Store s) -> n_slot n = slot_of cfg (n_id n) -> N.eqb (n_id n) (c_root cfg) = false ->
+    step Store w_put w_get sha1 id_secure cfg s (EFailedPing (n_addr n) (n_id n)) no_choice =
+    SR Store (with_nodes Store s
+                (replace_node cfg (addr_key (n_addr n)) (n_id n) (apply_update (s_now Store s) UFailedPing)
+                              (s_nodes Store s))) [].
+  Proof. exact (failed_ping_is_server_event Store w_put w_get sha1 id_secure cfg s n). Qed.
+
+  Theorem C06_maint_failed_ping_step_flags (s : sstate Store) (n m : node) :
+    In n (s_nodes Store s) -> n_slot n = slot_of cfg (n_id n) -> N.eqb (n_id n) (c_root cfg) = false ->
+    forall s' out, step Store w_put w_get sha1 id_secure cfg s (EFailedPing (n_addr n) (n_id n)) no_choice = SR Store s' out ->
+    In m (s_nodes Store s') -> n_failed m = true ->
+    In m (s_nodes Store s) \/
+    exists x, In x (s_nodes Store s) /\ same_node (addr_key (n_addr n)) (n_id n) x = true /\
+              m = apply_update (s_now Store s) UFailedPing x.
+  Proof. exact (failed_ping_step_flags Store w_put w_get sha1 id_secure cfg s n m). Qed.
+End C06_maintenance_refines.
+
 (* non-vacuity: a bucket with a good entry, a questionable one that answers and one that does not: two pings,
    the silent one is marked, the bucket (3 of 8) is refreshed with the two not-bad entries as seeds, the pass ends
    there; the good entry is still there *)
@@ -432,3 +462,5 @@ Print Assumptions C06_maint_flag_only_unanswered_questionable.
 Print Assumptions C06_maint_answered_ping_makes_good.
 Print Assumptions C06_maint_pass_keeps_good.
 Print Assumptions C06_maint_nonvacuous.
+Print Assumptions C06_maint_failed_ping_is_server_event.
+Print Assumptions C06_maint_failed_ping_step_flags.
